@@ -111,6 +111,8 @@ def make_lattice(m, rot=None):
 
 def make_traj(m, species, coords, time_step=2e-15, temperature=600.0, rot=None, **kw):
     from gemdat.trajectory import Trajectory
+    from pymatgen.core import Element
+    species = [Element(s) if isinstance(s, str) else s for s in species]
     return Trajectory(species=list(species), coords=np.array(coords, dtype=float),
                       lattice=make_lattice(m, rot), time_step=time_step,
                       metadata={'temperature': temperature}, **kw)
